@@ -24,26 +24,6 @@ import (
 	"hv/hvlib"
 )
 
-type optsJ struct {
-	Simple bool `json:"simple"`
-	Debug  bool `json:"debug"`
-	Long   int  `json:"long"`
-	Real   int  `json:"real"`
-	Map    int  `json:"map"`
-	Struct int  `json:"struct"`
-	List   int  `json:"list"`
-}
-
-type valJ struct {
-	T *TD             `json:"t"`
-	V json.RawMessage `json:"v"`
-}
-
-type hdrJ struct {
-	K string `json:"k"` // hex
-	V valJ   `json:"v"`
-}
-
 type methodJ struct {
 	ID       int    `json:"id"`
 	Name     string `json:"name"` // hex: the alias it is registered under
@@ -76,18 +56,6 @@ type c07Case struct {
 	Res     resJ      `json:"res"`
 	Rtypes  []int     `json:"rtypes"`
 	RtDef   bool      `json:"rt_default"` // ReturnType as Client.Invoke leaves it: [interface{}]
-}
-
-type tv struct {
-	Ty  string `json:"ty"`
-	V   string `json:"v,omitempty"`   // unfolded walker text
-	Err string `json:"err,omitempty"` // decode error of the oracle round trip
-	Eq  string `json:"eq,omitempty"`  // oracle entries: the property's equality between the original and the plain round trip
-}
-
-type kv struct {
-	K string `json:"k"`
-	V string `json:"v"`
 }
 
 type encObs struct {
@@ -159,155 +127,6 @@ type c07Obs struct {
 	Zeros     []tv     `json:"zeros"`
 	JReq      *jenv    `json:"jreq,omitempty"`
 	JResp     *jenv    `json:"jresp,omitempty"`
-}
-
-func safely(f func()) (p string) {
-	defer func() {
-		if e := recover(); e != nil {
-			p = fmt.Sprint(e)
-			if p == "" {
-				p = "panic"
-			}
-		}
-	}()
-	f()
-	return ""
-}
-
-func unhexs(s string) string {
-	b, _ := hex.DecodeString(s)
-	return string(b)
-}
-
-func hexs(s string) string { return hex.EncodeToString([]byte(s)) }
-
-func codecOptions(o optsJ, service bool) []core.CodecOption {
-	opts := []core.CodecOption{
-		core.WithSimple(o.Simple),
-		core.WithLongType(hio.LongType(o.Long)),
-		core.WithRealType(hio.RealType(o.Real)),
-		core.WithMapType(hio.MapType(o.Map)),
-		core.WithStructType(hio.StructType(o.Struct)),
-		core.WithListType(hio.ListType(o.List)),
-	}
-	if service {
-		opts = append(opts, core.WithDebug(o.Debug))
-	}
-	return opts
-}
-
-func newDecoder(data []byte, o optsJ, simple bool) *hio.Decoder {
-	d := hio.NewDecoder(data)
-	d.LongType = hio.LongType(o.Long)
-	d.RealType = hio.RealType(o.Real)
-	d.MapType = hio.MapType(o.Map)
-	d.StructType = hio.StructType(o.Struct)
-	d.ListType = hio.ListType(o.List)
-	d.Simple(simple)
-	return d
-}
-
-// ioRoundTrip: the plain io round trip of one value into type t (nil = interface{}): what C01 is about.
-func ioRoundTrip(v interface{}, t reflect.Type, writerSimple bool, readerOpts optsJ) (out interface{}, err string) {
-	p := safely(func() {
-		enc := hio.NewEncoder(nil).Simple(writerSimple)
-		if e := enc.Encode(v); e != nil {
-			err = "encode: " + e.Error()
-			return
-		}
-		data := append([]byte{}, enc.Bytes()...)
-		dec := newDecoder(data, readerOpts, writerSimple)
-		out = dec.Read(t)
-		if dec.Error != nil {
-			err = dec.Error.Error()
-		}
-	})
-	if p != "" {
-		err = "panic: " + p
-	}
-	return
-}
-
-var jsonCodec = jsonrpc.NewClientCodec(nil).(*jsonrpc.ClientCodec).Codec
-
-// jsonRoundTrip: Marshal, Unmarshal into interface{}, Marshal again, Unmarshal into t (what both JSON-RPC codecs do).
-func jsonRoundTrip(v interface{}, t reflect.Type) (out interface{}, err string) {
-	p := safely(func() {
-		d1, e := jsonCodec.Marshal(v)
-		if e != nil {
-			err = "marshal: " + e.Error()
-			return
-		}
-		var g interface{}
-		if e := jsonCodec.Unmarshal(d1, &g); e != nil {
-			err = "unmarshal: " + e.Error()
-			return
-		}
-		if t == nil {
-			out = g
-			return
-		}
-		d2, _ := jsonCodec.Marshal(g)
-		pv := reflect.New(t)
-		if e := jsonCodec.Unmarshal(d2, pv.Interface()); e != nil {
-			err = e.Error()
-			return
-		}
-		out = pv.Elem().Interface()
-	})
-	if p != "" {
-		err = "panic: " + p
-	}
-	return
-}
-
-func typeName(x interface{}) string {
-	if x == nil {
-		return "<nil>"
-	}
-	return reflect.TypeOf(x).String()
-}
-
-// property oracle: is the decoded value equal in value to the one passed (normalising equality of C01)
-func equalTo(orig reflect.Value, got interface{}) string {
-	var r string
-	p := safely(func() {
-		ctx := &eqctx{visited: map[[2]uintptr]bool{}}
-		gv := reflect.New(ifaceType).Elem()
-		if got != nil {
-			gv.Set(reflect.ValueOf(got))
-		}
-		if got != nil && orig.Kind() != reflect.Interface && reflect.TypeOf(got) == orig.Type() {
-			a := reflect.New(orig.Type()).Elem()
-			a.Set(orig)
-			b := reflect.New(orig.Type()).Elem()
-			b.Set(reflect.ValueOf(got))
-			r = ctx.eq(a, b, "$")
-			return
-		}
-		a := reflect.New(ifaceType).Elem()
-		if orig.IsValid() && !(orig.Kind() == reflect.Interface && orig.IsNil()) {
-			a.Set(orig)
-		}
-		r = ctx.loose(a, gv, "$")
-	})
-	if p != "" {
-		return "comparison panicked: " + p
-	}
-	return r
-}
-
-func sortedKV(m map[string]interface{}, f func(v interface{}) string) []kv {
-	keys := make([]string, 0, len(m))
-	for k := range m {
-		keys = append(keys, k)
-	}
-	sort.Strings(keys)
-	out := make([]kv, 0, len(m))
-	for _, k := range keys {
-		out = append(out, kv{hexs(k), f(m[k])})
-	}
-	return out
 }
 
 type built struct {
@@ -628,16 +447,6 @@ func runCase(line []byte, out *json.Encoder) error {
 	return out.Encode(&obs)
 }
 
-func ifaceOf(v reflect.Value) interface{} {
-	if !v.IsValid() {
-		return nil
-	}
-	if v.Kind() == reflect.Interface && v.IsNil() {
-		return nil
-	}
-	return v.Interface()
-}
-
 func build(c *c07Case) (*built, error) {
 	b := &built{}
 	for _, td := range c.Types {
@@ -755,6 +564,11 @@ func scripted(c *c07Case, b *built) ([]interface{}, error) {
 // and returns the case's results.
 func makeFunc(c *c07Case, b *built, m methodJ, log *[]string) (reflect.Value, error) {
 	var in, outT []reflect.Type
+	for _, i := range append(append([]int{}, m.Params...), m.Results...) {
+		if i >= len(b.types) {
+			return reflect.Value{}, fmt.Errorf("type index %d out of range", i)
+		}
+	}
 	if m.Ctx {
 		in = append(in, ctxType)
 	}
